@@ -338,7 +338,7 @@ class SeriesOps:
             return Ser(st, (("series", self.I.new_id()), T.TRUE, None), None)
         if name == "pd.to_numeric":
             if isinstance(a0, Ser):
-                self.log("identity-cast", node, what="to_numeric", kw={k: to_term(v) for k, v in kw.items()})
+                self.log("identity-cast", node, what="to_numeric", kw={k: to_term(v) for k, v in kw.items()}, term=a0.term)
                 dc = kw.get("downcast")
                 if dc == "unsigned":          # values are kept, but later arithmetic is modular: keep a marker on the term
                     return Ser(("astype", T.C("unsigned"), a0.term), a0.ctx, a0.frame, a0.name, a0.positional)
